@@ -5064,6 +5064,11 @@ class PyCdlib:
             # get the mode of a symlink but no target.
             raise pycdlibexception.PyCdlibInvalidInput('Cannot make a hard link to a Rock Ridge symlink')
 
+        if isinstance(old_rec, udfmod.UDFFileEntry) and old_rec.is_symlink():
+            # The new name would get the File Entry of a regular file, whose
+            # contents are the path components of the symlink.
+            raise pycdlibexception.PyCdlibInvalidInput('Cannot make a hard link to a UDF symlink')
+
         if self.eltorito_boot_catalog is not None and any(old_rec is rec for rec in self.eltorito_boot_catalog.dirrecords):
             # The old path is one of the names of the El Torito boot catalog,
             # so the new name is another one; the catalog has to know it.
